@@ -717,6 +717,10 @@ class Budgets:
         if ctx.kind == "glyf":
             k = 1.0 if self.optimize else 0.5
             b, n = varbudget.count_budget(self.sit, ctx._glyph_vars(name), 0.5, k)
+            if ctx.gvar is not None and any(tv.coordinates[-4] not in (None, (0, 0)) and tv.coordinates[-4][0] for tv in (ctx.gvar.variations.get(name) or []) if len(tv.coordinates) >= 4):
+                # the left side-bearing phantom point moves: a shaper shifts the outline by the phantom point's interpolated
+                # position, which goes through the same chain of separately rounded variations as the point itself
+                b *= 2
             if depth < 8:
                 comp = ctx.components(name)
                 if comp:
@@ -979,10 +983,39 @@ def check_location(ctx, acc, sub, loc, triples, pinned, limited, Dnorm_v, eps, h
         rnd = random.Random(subseed(1, "glyphs", ctx.fid))
         names = sorted(rnd.sample(names, 200), key=ctx.gid.get)
     worst = 0.0
+    # The model of vf.varbudget counts, from the ORIGINAL's data, how many separately rounded variations of the instance can
+    # be active at the location; the rebasing solver may emit more overlapping tents than that model foresees (a restricted
+    # axis with a moved default inside a tent). The budget is never smaller than what the design states: half a unit for
+    # the default outline plus half a unit times |scalar| for every tuple variation of the INSTANCED glyph that is active
+    # at the location (read from the instance's own gvar), plus half a unit when the left phantom point moves.
+    inst_norm = dict(zip([a.axisTag for a in inst["fvar"].axes], hbi.normalized())) if (ctx.kind == "glyf" and "fvar" in inst and "gvar" in inst) else None
+    _alt = {}
+
+    def inst_budget(gname, depth=0):
+        if gname in _alt:
+            return _alt[gname]
+        b = 0.5
+        tvs = inst["gvar"].variations.get(gname) or [] if (inst_norm is not None) else []
+        for tv in tvs:
+            sc = abs(varbudget.region_scalar({t: tuple(v) for t, v in tv.axes.items()}, inst_norm))
+            if sc:
+                b += 0.5 * min(1.0, sc) + 1e-6
+        moves = any(len(tv.coordinates) >= 4 and tv.coordinates[-4] not in (None, (0, 0)) and tv.coordinates[-4][0] for tv in ((ctx.gvar.variations.get(gname) or []) if ctx.gvar is not None else []))
+        if moves:
+            b *= 2  # the phantom point has the same chain of roundings
+        if depth < 8:
+            comp = ctx.components(gname)
+            if comp:
+                b += max(inst_budget(c, depth + 1) * sc_ for c, sc_ in comp)
+        _alt[gname] = b
+        return b
+
     for name in names:
         gid = ctx.gid[name]
         if ctx.kind != "no-outlines":
             tol, step_tol, n = B.glyph(name)
+            if tol is not None and math.isfinite(tol) and ctx.kind == "glyf":
+                tol = max(tol, inst_budget(name) + FLOAT_EPS)
             if tol is None:
                 acc.exclude("cff2-glyph-with-unresolved-subroutine")
             elif not math.isfinite(tol):
@@ -1043,6 +1076,10 @@ def check_location(ctx, acc, sub, loc, triples, pinned, limited, Dnorm_v, eps, h
                     if v is not None and abs(v - a_i_) <= t:
                         verdict = "advance:accepted-as-" + lab
                         break
+                if verdict is None and any(v is not None and v < -t for _l, v, t in cands + [("own-phantom(newDefault)", po_d, tol)]):
+                    # the variation data drive this advance below zero somewhere on the way (hmtx cannot hold it, shapers
+                    # clamp it): the font has no meaningful advance there, nothing to preserve
+                    verdict = "advance:negative-in-the-original-design-space(not compared)"
                 detail = "HVAR/VVAR %s; %s" % (a_o_, ", ".join("%s %s" % (l, v if v is None else round(v, 2)) for l, v, _ in cands))
             else:
                 detail = "original %s" % a_o
@@ -1134,8 +1171,11 @@ def check_location(ctx, acc, sub, loc, triples, pinned, limited, Dnorm_v, eps, h
             if a[4] or a[5] or b[4] or b[5]:
                 # an attached glyph's offset contains the advances of the glyphs back to its base
                 t_off += sum(dadv) - dadv[i] + val * (len(ra) - 1)
+            # a glyph whose shaped advance is zero in both fonts although its nominal advance is not (a GDEF mark: the shaper
+            # zeroes it) has no adjustment to speak of: its "adjustment" would be minus its own variable advance (clause 2)
+            zeroed = a[2] == 0 and b[2] == 0
             pairs = (
-                (a[2] - nom_o[i], b[2] - nom_i[i], "x_advance adjustment", t_adv),
+                (0 if zeroed else a[2] - nom_o[i], 0 if zeroed else b[2] - nom_i[i], "x_advance adjustment", t_adv),
                 (a[3], b[3], "y_advance", t_adv),
                 (a[4], b[4], "x_offset", t_off),
                 (a[5], b[5], "y_offset", t_off),
